@@ -71,3 +71,10 @@ Definition corr_C04 (i:input) (o:output) : bool :=
    error, cf. DESIGN section 6.1 C04) *)
 Definition consistent (i:input) : bool := negb (one_txn i && kind_eqb (i_kind i) ImplicitCommitDDL).
 Definition inclass_C04 (i:input) : bool := consistent i.
+
+(* the whole database state after a list of completed migrations (used for real transactional DDL) *)
+Definition apply_step (sp:step) (d:dbstate) : dbstate :=
+  fold_left (fun d v => apply_act (AVop v) d) (s_ver sp)
+            (fold_left (fun d x => apply_act (AEff (stmt_eff x)) d) (s_body sp) d).
+Definition state_after (steps:list step) (d:dbstate) : dbstate := fold_left (fun d sp => apply_step sp d) steps d.
+Definition with_version_table (d:dbstate) : dbstate := mkDb (effs d) true (vrows d).
